@@ -30,6 +30,13 @@ func drawC20(rt *rapid.T) TSpec {
 		maxTasks = 24
 	}
 	kinds := []int{tPrepare, tPrepare, tProveNonrev, tProveNonrev, tProvePlain, tVerify, tRandRead, tRandRead, tRandomQR, tProveRange, tProveList, tIssueCommit}
+	if rapid.IntRange(0, 7).Draw(rt, "freerun") == 0 {
+		// stress class: real parallelism, generator-heavy (reaches windows between adjacent atomic operations)
+		s := drawTSpec(rt, []int{tRandStress, tRandStress, tRandRead, tRandRead, tRandomQR, tProveNonrev, tPrepare}, 16, 12, 1)
+		s.FreeRun = true
+		s.Schedule = nil
+		return s
+	}
 	return drawTSpec(rt, kinds, maxTasks, 3, 1)
 }
 
@@ -76,6 +83,21 @@ func execC20(r *kernel.Run, s TSpec) {
 	}
 	checkTResultValidity(r, "C20", res)
 
+	if len(res.Blocks) > 0 {
+		seenB := make(map[[16]byte]bool, len(res.Blocks))
+		dups := 0
+		for _, b := range res.Blocks {
+			if seenB[b] {
+				dups++
+			}
+			seenB[b] = true
+		}
+		r.Eval(len(res.Blocks))
+		r.Probe("stress-blocks-checked")
+		if dups > 0 {
+			r.Violate("C20:keystream-block-handed-out-twice", map[string]any{"stress": true}, "%d of %d one-block reads made concurrently returned a block another read had already been given", dups, len(res.Blocks))
+		}
+	}
 	// generator history
 	if len(res.Reads) > 0 {
 		type rd struct {
@@ -88,7 +110,7 @@ func execC20(r *kernel.Run, s TSpec) {
 			total += (x.N + 15) / 16
 		}
 		// other tasks consume blocks too (proof randomness): search generously
-		maxBlocks := total + 4096
+		maxBlocks := total + len(res.Blocks) + 4096 + 512*len(res.Proofs)
 		// Reads of at least one block identify their offset uniquely; shorter reads may match the
 		// keystream at several places and are only required to come from a block no long read owns.
 		var short []tRead
@@ -139,6 +161,11 @@ func execC20(r *kernel.Run, s TSpec) {
 				}
 				return true, out + in.blocks
 			},
+		}
+		if s.FreeRun {
+			r.Probe("free-running-generator-history-checked")
+			r.Sample(map[string]any{"free_run": true, "tasks": len(s.Phases[0]), "reads": len(res.Reads)})
+			return
 		}
 		var ops []porcupine.Operation
 		for _, x := range rds {
